@@ -202,10 +202,10 @@ func loadProj(dir string) *pkgInfo {
 	}
 	p.pkg, _ = conf.Check("proj", p.fset, fs, p.info) // errors (e.g. the stubbed gonum import) are collected, not fatal
 	for _, f := range fs {
-		for _, d := range f.Decls {
-			gd, ok := d.(*ast.GenDecl)
+		ast.Inspect(f, func(n ast.Node) bool { // constants at every level (krovak.go declares them inside the constructor)
+			gd, ok := n.(*ast.GenDecl)
 			if !ok || gd.Tok != token.CONST {
-				continue
+				return true
 			}
 			for _, s := range gd.Specs {
 				vs := s.(*ast.ValueSpec)
@@ -215,7 +215,8 @@ func loadProj(dir string) *pkgInfo {
 					}
 				}
 			}
-		}
+			return true
+		})
 	}
 	return p
 }
@@ -223,6 +224,7 @@ func loadProj(dir string) *pkgInfo {
 // ---------------------------------------------------------------- Go -> Lean translator (restricted subset)
 
 type tr struct {
+	hook  func(e ast.Expr) (string, bool) // closure translation: receiver fields, captured variables
 	p     *pkgInfo
 	funcs map[string]*ast.FuncDecl
 	out   *strings.Builder // extra top-level definitions (loops) emitted before the current function
@@ -298,6 +300,11 @@ func (t *tr) expr(e ast.Expr) string {
 	if tv, ok := t.p.info.Types[e]; ok && tv.Value != nil && !t.mentionsPi(e) {
 		return t.constLit(e, t.p.exact(e))
 	}
+	if t.hook != nil {
+		if s, ok := t.hook(e); ok {
+			return s
+		}
+	}
 	switch x := e.(type) {
 	case *ast.ParenExpr:
 		return "(" + t.expr(x.X) + ")"
@@ -344,8 +351,14 @@ func (t *tr) expr(e ast.Expr) string {
 		case token.GEQ:
 			return "(RNum.ge " + a + " " + b + ")"
 		case token.EQL:
+			if t.isIntegral(x.X) {
+				return "(" + a + " == " + b + ")"
+			}
 			return "(RNum.eq " + a + " " + b + ")"
 		case token.NEQ:
+			if t.isIntegral(x.X) {
+				return "(" + a + " != " + b + ")"
+			}
 			return "(RNum.ne " + a + " " + b + ")"
 		case token.LAND:
 			return "(" + a + " && " + b + ")"
@@ -384,6 +397,15 @@ func (t *tr) expr(e ast.Expr) string {
 	}
 	t.fail(e, "expression %T", e)
 	return ""
+}
+
+func (t *tr) isIntegral(e ast.Expr) bool {
+	if tv, ok := t.p.info.Types[e]; ok && tv.Type != nil {
+		if b, ok := tv.Type.Underlying().(*types.Basic); ok {
+			return b.Info()&(types.IsInteger|types.IsBoolean) != 0
+		}
+	}
+	return false
 }
 
 func leanIdent(s string) string {
@@ -1250,6 +1272,96 @@ func main() {
 	}
 	g.WriteString("\nend GeomV.C09.Gen.Go\n")
 	writeIfChanged(filepath.Join(*out, "GoCommon.lean"), g.String())
+
+	// ---- GoProj.lean: closures of the projection constructors and straight-line methods of datum.go
+	{
+		var g strings.Builder
+		g.WriteString("/- GENERATED by harness/cmd/c09/extract from the closures of proj/{merc,lcc,aea,eqdc,tmerc,krovak}.go,\n   proj/aea.go aeaPhi1z and the straight-line methods of proj/datum.go.\n   Do not edit: rewritten from the current source on every check run (tie T1). -/\n")
+		g.WriteString("import GeomV.C09.Gen.GoCommon\nset_option linter.unusedVariables false\nnamespace GeomV.C09.Gen.Go\nopen GeomV.C09\n\n")
+		pkgFuncs := map[string]bool{"phi2z": true, "imlfn": true, "aeaPhi1z": true}
+		var done, skipped []string
+		find := func(file, name string) *ast.FuncDecl {
+			f, ok := p.files[file]
+			if !ok {
+				die("proj/%s not found", file)
+			}
+			for _, d := range f.Decls {
+				if fd, ok := d.(*ast.FuncDecl); ok && fd.Name.Name == name && fd.Body != nil {
+					return fd
+				}
+			}
+			die("proj/%s: func %s not found", file, name)
+			return nil
+		}
+		// aeaPhi1z (ordinary function with a counted loop: the common.go translator)
+		{
+			fd := find("aea.go", "aeaPhi1z")
+			t.funcs[fd.Name.Name] = fd
+			t.out.Reset()
+			s, err := t.fn(fd)
+			if err != nil {
+				skipped = append(skipped, "aeaPhi1z: "+err.Error())
+			} else {
+				g.WriteString(t.out.String())
+				g.WriteString(s)
+				done = append(done, "aeaPhi1z")
+			}
+		}
+		for _, c := range []struct{ file, ctor string }{{"merc.go", "Merc"}, {"lcc.go", "LCC"}, {"aea.go", "AEA"}, {"eqdc.go", "EqdC"}, {"tmerc.go", "TMerc"}, {"krovak.go", "Krovak"}} {
+			fd := find(c.file, c.ctor)
+			cls := closuresOf(fd)
+			for _, which := range []string{"forward", "inverse"} {
+				fl, ok := cls[which]
+				name := c.ctor + "_" + which
+				if !ok {
+					skipped = append(skipped, name+": closure not found")
+					continue
+				}
+				s, err := t.closure(name, fl.Type, fl.Body, pkgFuncs)
+				if err != nil {
+					skipped = append(skipped, name+": "+err.Error())
+					continue
+				}
+				g.WriteString(s)
+				done = append(done, name)
+			}
+		}
+		for _, m := range []string{"geodetic_to_geocentric", "geocentric_to_wgs84", "geocentric_from_wgs84", "geocentric_to_geodetic"} {
+			fd := find("datum.go", m)
+			name := "datum_" + m
+			s, err := t.closure(name, fd.Type, fd.Body, pkgFuncs)
+			if err != nil {
+				skipped = append(skipped, name+": "+err.Error())
+				continue
+			}
+			g.WriteString(s)
+			done = append(done, name)
+		}
+		g.WriteString("/-! translated: " + strings.Join(done, ", ") + " -/\n")
+		for _, s := range skipped {
+			g.WriteString("/-! outside the subset (hand-written model): " + strings.ReplaceAll(s, "-/", "- /") + " -/\n")
+		}
+		g.WriteString("\nend GeomV.C09.Gen.Go\n")
+		writeIfChanged(filepath.Join(*out, "GoProj.lean"), g.String())
+		// what translated when this tool was written must keep translating: otherwise the tie is broken
+		must := []string{"aeaPhi1z", "Merc_forward", "Merc_inverse", "LCC_forward", "LCC_inverse", "AEA_forward", "AEA_inverse",
+			"EqdC_forward", "EqdC_inverse", "TMerc_forward", "Krovak_forward", "datum_geodetic_to_geocentric",
+			"datum_geocentric_to_wgs84", "datum_geocentric_from_wgs84"}
+		have := map[string]bool{}
+		for _, d := range done {
+			have[d] = true
+		}
+		var lost []string
+		for _, m := range must {
+			if !have[m] {
+				lost = append(lost, m)
+			}
+		}
+		fmt.Printf("c09 extract: closures/methods translated: %s; hand-written: %d\n", strings.Join(done, " "), len(skipped))
+		if len(lost) > 0 {
+			die("left the translatable subset: %s\n  %s", strings.Join(lost, ", "), strings.Join(skipped, "\n  "))
+		}
+	}
 
 	// ---- Tables.lean
 	var tb strings.Builder
